@@ -177,9 +177,12 @@ def main(argv):
     corpus = sorted(glob.glob(os.path.join(HERE, "replays", check_id, "*.json")))
     corpus_run = 0
     known_repro = {}
-    for path in corpus:
+    from concurrent.futures import ThreadPoolExecutor
+
+    with ThreadPoolExecutor(max_workers=8) as pool:
+        corpus_results = list(pool.map(lambda pth: replay_subprocess(check_id, pth), corpus))
+    for path, (st, text) in zip(corpus, corpus_results):
         base = os.path.basename(path)
-        st, text = replay_subprocess(check_id, path)
         corpus_run += 1
         if base.startswith("known-"):
             sig = base[len("known-"):-len(".json")]
